@@ -31,13 +31,23 @@ def token_sig(text):
 
 
 class Instance:
-    def __init__(self, name, spec, menu=(0.5,), family=None):
+    def __init__(self, name, spec, menu=(0.5,), family=None, mirror=False):
         self.name = name
         self.spec = spec
         self.menu = tuple(menu)
         self.family = family or name
         self.text = R.print_spec(spec)
         self.nspec = R.normalize(spec)
+        self.mirror = bool(mirror)
+        if self.mirror:
+            # the object under test is Molecule(text).gen_mirror(): 'as if the elements had been written in reverse'
+            els = []
+            for e in reversed(self.nspec["elements"]):
+                e = dict(e)
+                if e["k"] == "sto":
+                    e["left"], e["right"] = e["right"], e["left"]
+                els.append(e)
+            self.nspec = {"elements": els, "mixture": self.nspec.get("mixture")}
         self.tokens = {}  # normalised token text -> element index list
         self.el_of = {}
         self.kind_of = {}
@@ -60,11 +70,11 @@ class Instance:
         self.kind_of.setdefault(text, set()).add((ei, kind))
 
     def as_json(self):
-        return {"name": self.name, "spec": self.spec, "menu": list(self.menu), "family": self.family}
+        return {"name": self.name, "spec": self.spec, "menu": list(self.menu), "family": self.family, "mirror": self.mirror}
 
     @staticmethod
     def from_json(d):
-        return Instance(d["name"], d["spec"], d.get("menu", (0.5,)), d.get("family"))
+        return Instance(d["name"], d["spec"], d.get("menu", (0.5,)), d.get("family"), mirror=d.get("mirror", False))
 
     def targets_from_points(self, points):
         """target mass of each stochastic object of one execution, computed from the declared law and the
@@ -502,6 +512,7 @@ def run_instance(inst, max_exec=200000, bound=None, want=("C04", "C05", "C06", "
     import gbigsmiles
 
     text = inst.text
+    shown = inst.text + (" [the object returned by gen_mirror() of this string]" if inst.mirror else "")
     stats = {"execs": 0, "points": 0, "exceptions": 0, "outcomes": 0, "model_states": 0, "model_transitions": 0, "capped": False, "maxdepth": 0}
     viols = {}  # key -> (what, script)
     dist = {}  # (targets tuple, canon) -> prob
@@ -509,11 +520,19 @@ def run_instance(inst, max_exec=200000, bound=None, want=("C04", "C05", "C06", "
     pvec_bad = []
     ndraws_seen = set()
 
-    shared = [gbigsmiles.Molecule(text)] if reuse else None
+    def build():
+        m = gbigsmiles.Molecule(text)
+        if inst.mirror:
+            m = m.gen_mirror()
+            if m is None:
+                raise ValueError("gen_mirror() returns None")
+        return m
+
+    shared = [build()] if reuse else None
 
     def run(rng):
         try:
-            mol = shared[0] if reuse else gbigsmiles.Molecule(text)
+            mol = shared[0] if reuse else build()
         except Exception as e:  # noqa
             return ("exc", f"{type(e).__name__}: {str(e)[:100]}")
         # one execution of a bounded instance takes milliseconds; 60 s or 20000 generator requests = does not terminate
@@ -565,7 +584,7 @@ def run_instance(inst, max_exec=200000, bound=None, want=("C04", "C05", "C06", "
             if pt.kind == "choice":
                 pf = pt.info["p_full"]
                 if min(pf) < 0 or abs(sum(pf) - 1) > 1e-9:
-                    viols.setdefault(f"C08|bad-p-vector|{inst.family}", (f"{inst.text}: probability vector {pf} handed to the generator", script))
+                    viols.setdefault(f"C08|bad-p-vector|{inst.family}", (f"{shown}: probability vector {pf} handed to the generator", script))
         if status == "exc":
             stats["exceptions"] += 1
             o = Obs()
@@ -596,7 +615,7 @@ def run_instance(inst, max_exec=200000, bound=None, want=("C04", "C05", "C06", "
             per += oracle_c07(inst, o, targets)
         for (prop, code, what) in per:
             if prop in want:
-                viols.setdefault(f"{prop}|{code}|{inst.family}", (f"{inst.text}: {what}", script))
+                viols.setdefault(f"{prop}|{code}|{inst.family}", (f"{shown}: {what}", script))
     stats["capped"] = bool(explore.capped) or timed_out
     # what is fully covered below a cap: every execution with at most this many deviations from the default answers
     stats["completed_deviation_bound"] = (explore.current_bound - 1) if timed_out else explore.completed_bound if explore.capped else None
@@ -618,7 +637,7 @@ def run_instance(inst, max_exec=200000, bound=None, want=("C04", "C05", "C06", "
             impl = {k[1]: v / scale for k, v in dist.items() if k[0] == tk}
             tot = sum(impl.values())
             if abs(tot - 1.0) > 1e-9:
-                viols.setdefault(f"C08|mass-not-one|{inst.family}", (f"{inst.text} targets {tk}: path probabilities sum to {tot}", []))
+                viols.setdefault(f"C08|mass-not-one|{inst.family}", (f"{shown} targets {tk}: path probabilities sum to {tot}", []))
             exp = dict(mo)
             if gm.err > 0:
                 exp["EXC"] = exp.get("EXC", 0.0) + gm.err
@@ -628,7 +647,7 @@ def run_instance(inst, max_exec=200000, bound=None, want=("C04", "C05", "C06", "
                     kind = "missing-outcome" if a == 0 else "extra-outcome" if b == 0 else "wrong-probability"
                     viols.setdefault(
                         f"C08|{kind}|{inst.family}",
-                        (f"{inst.text} targets {tk}: outcome {c if c == 'EXC' or c is None else R.plain_smiles_of_labelled(c)} [{c}] has probability {a:.9f} in the implementation, {b:.9f} from the notation", []),
+                        (f"{shown} targets {tk}: outcome {c if c == 'EXC' or c is None else R.plain_smiles_of_labelled(c)} [{c}] has probability {a:.9f} in the implementation, {b:.9f} from the notation", []),
                     )
                     break
     return stats, viols, dist
@@ -643,7 +662,10 @@ def replay_script(inst, script, want=("C04", "C05", "C06", "C07")):
 
     rng = ScriptedGenerator(script, menu=inst.menu)
     try:
-        mg = gbigsmiles.Molecule(inst.text).generate(rng=rng)
+        mol_ = gbigsmiles.Molecule(inst.text)
+        if inst.mirror:
+            mol_ = mol_.gen_mirror()
+        mg = mol_.generate(rng=rng)
         o = observe(inst, mg)
     except HarnessError:
         raise
